@@ -48,12 +48,13 @@ func literal(g *geom, srid int, route string) string {
 }
 
 // nestedEmptyFinding: ST_AsText prints an empty collection that is a member of a collection as
-// "GEOMETRYCOLLECTION EMPTY", which ST_GeomFromText only accepts as the whole text.
+// "GEOMETRYCOLLECTION EMPTY", which ST_GeomFromText only accepts at the end of the text.
 const nestedEmptyFinding = "C52-nested-empty-collection-text"
 
 func hasNestedEmpty(g *geom) bool {
-	for _, m := range g.geoms {
-		if m.kind == kColl && (len(m.geoms) == 0 || hasNestedEmpty(m)) {
+	// the region: an empty collection that is a member of a collection and not its last member
+	for i, m := range g.geoms {
+		if m.kind == kColl && (len(m.geoms) == 0 && i < len(g.geoms)-1 || hasNestedEmpty(m)) {
 			return true
 		}
 	}
